@@ -64,6 +64,8 @@ def gen(rng, tier):
             c['kind'] = 'write' if i % 2 == 0 else 'read'
             if c['kind'] == 'write':
                 c['vdtype'] = rng.choice(['f', 'f', 'd'])
+                if len(c['species']) >= 2 and rng.random() < 0.4:
+                    c['varorder'] = rng.sample(range(len(c['species'])), len(c['species']))
             elif i % 6 == 1:
                 c['little'] = True      # the same file as a little-endian machine writes it, opened with endian='little'
         out.append(c)
@@ -91,6 +93,19 @@ def gen(rng, tier):
         c = camx.gen_uamiv_at(rng, 1999, 365, 22, tstep=1)
     c['kind'] = 'read'
     out.append(c)
+    # the first step itself ends in the next year (the step length the reader reports is that of this step)
+    c = camx.gen_uamiv_at(rng, rng.choice([2005, 1999, 2019]), 365, 23, tstep=1)
+    c['kind'] = 'read'
+    out.append(c)
+    for fmt in ('temperature', 'humidity', 'height_pressure'):
+        # ... and written by the library from a data set whose flags run from 1999 into 2000
+        c = S.gen(rng, fmt=fmt, longspan=False)
+        c['flags'] = [[99365, 2200], [99365, 2300], [1, 0], [1, 100]][:max(3, len(c['flags']))]
+        per = len(c['data'][0])
+        c['data'] = [[[camx.rand_f32_bits(rng) for _ in range(c['nx'] * c['ny'])] for _ in range(per)] for _ in c['flags']]
+        c['kind'] = 'swrite'
+        c['vdtype'] = 'f'
+        out.append(c)
     for fmt in ('temperature', 'humidity'):
         c = S.gen(rng, fmt=fmt, longspan=False)
         c['flags'] = [[99365, 2200], [99365, 2300], [1, 0], [1, 100]][:max(3, len(c['flags']))]
@@ -164,6 +179,13 @@ def _gen_cr(rng, kind):
     names = CRV5 if rng.random() < 0.6 else CRV3
     n = c['nx'] * c['ny']
     c['data'] = [[[camx.rand_f32_bits(rng) for _ in range(n)] for _ in range(c['nz'] * len(names))] for _ in c['flags']]
+    if rng.random() < 0.5:
+        # fields that are zero throughout a layer (no cloud, no rain: the usual case), some of the zeros negative
+        for slabs in c['data']:
+            for k in range(len(slabs)):
+                if rng.random() < 0.4:
+                    slabs[k] = [rng.choice([0, 0x80000000]) for _ in range(n)]
+                    slabs[k][rng.randrange(n)] = 0x80000000
     order = list(names)
     if rng.random() < 0.5:
         rng.shuffle(order)              # the order in which the input file defines the variables
